@@ -88,7 +88,7 @@ Vector(t, c) ==
       cc == [c EXCEPT !.ob = Min1(approx) + c.ob]
       B == Write(T, <<1>>, cc)
   IN [boc |-> BytesToHex(B), hash |-> BytesToHex(ReprHash(I[1])), level |-> LevelOf(T[1].m),
-      tree |-> TreeStr(T, 1), wf |-> ShapeOK(T), deep |-> ~WellFormed(T), kind |-> t.t, magic |-> c.magic, hashes |-> c.hashes,
+      tree |-> TreeStr(T, 1), wf |-> CellsShapeOK(T), deep |-> ~WellFormed(T), kind |-> t.t, magic |-> c.magic, hashes |-> c.hashes,
       selfcheck |-> (Parse(B).ok /\ Parse(B).T = T)]
 
 Init == /\ term \in Terms
